@@ -237,7 +237,10 @@ def make_net(case, obs):
         obs.count("nets_with_user_pump")
     if rng.random() < 0.5:
         pp.set_user_pf_options(net, friction_model="colebrook", tol_p=1e-6, max_iter_hyd=77)
-    opts = dict(netgen.TIGHT, mode="sequential" if case["kind"] == "heat" else "hydraulics")   # tight: both sides are solutions, not iterates
+    # tight step tolerances: both sides are solutions, not iterates; the residual bound stays above its round-off floor (~1e-9 for
+    # thermal residuals in W), otherwise the outcome itself is round-off luck; the inner Colebrook iteration (stored user option
+    # in half of the nets) is run to its fixed point - with its default tolerance of 1e-4 lambda is a step function of the flow
+    opts = dict(netgen.TIGHT, tol_res=1e-6, tolerance_colebrook=1e-12, max_iter_colebrook=200, mode="sequential" if case["kind"] == "heat" else "hydraulics")
     with_results = rng.random() < 0.7
     if with_results:
         out, _ = run_pipeflow(net, opts)
